@@ -1,7 +1,71 @@
 (** C20 — the printed tree is a faithful, well-formed picture of what ran.
-    Statements only; each closed by [exact] of a lemma in Proofs/Painter*.v. *)
-From DivanV Require Import Base.Res Model.Painter Model.DriverPaint Model.Parse Proofs.Painter.
+    Statements only; each closed by [exact] of a lemma in Proofs/Paint*.v.
 
+    Vocabulary (definitions in Model/Painter.v, Model/DriverPaint.v,
+    Model/Parse.v, Proofs/Painter.v, Proofs/PaintDriver.v, Proofs/PaintPrefix.v):
+    [paint a t] is the model of what [run_action] writes for the filtered,
+    sorted tree [t] under action [a]; [picture a t] is the expected picture
+    computed from the tree alone (groups, benchmarks, argument cases,
+    thread-count branches, their cells and continuation rows); [layout] lists
+    its lines with, for each node line, the flags of its ancestors below the
+    top level ([true] = has later siblings) and whether it is the last of its
+    siblings; [line_ok] says a text line is: one unit per flag ("│  " for true,
+    "   " for false), then "├─ " (not last) or "╰─ " (last) — nothing for a
+    top-level line —, then the name, then padding and the cells. *)
+From DivanV Require Import Base.Res Model.Painter Model.DriverPaint Model.Parse
+  Proofs.Painter Proofs.PaintDriver Proofs.PaintPrefix Proofs.PaintOrder.
+
+(** For ANY sequence of painter operations that does not panic: the depth is
+    the number of open parents and the prefix is exactly one 3-column unit per
+    open parent below the top level, a bar iff that parent was opened with
+    [is_last = false]. *)
+Theorem C20_prefix_invariant : forall span ws ops p out,
+  exec (painter_new span ws) ops = Ok (p, out) ->
+  exists st, track_ops None ops = Some st /\ depth p = st_depth st /\
+             prefix p = units_str (st_flags st) /\
+             length (prefix p) = 3 * (depth p - 1).
+Proof. exact prefix_invariant_ops. Qed.
+Print Assumptions C20_prefix_invariant.
+
+(** ... in particular at every point of the painting of a tree. *)
+Theorem C20_prefix_invariant_paint : forall a t before after p out,
+  paint a t = Ok (p, out) -> paint_ops a t = before ++ after ->
+  exists p1 out1 st,
+    exec (painter_new (max_span 0 t) (initial_widths a t)) before = Ok (p1, out1) /\
+    track_ops None before = Some st /\ depth p1 = st_depth st /\
+    prefix p1 = units_str (st_flags st) /\ length (prefix p1) = 3 * (depth p1 - 1).
+Proof. exact prefix_invariant_paint. Qed.
+Print Assumptions C20_prefix_invariant_paint.
+
+(** The driver never panics, closes every parent it opens and ends at depth 0
+    with an empty prefix. *)
+Theorem C20_paint_balanced : forall a t,
+  forallb is_group t = true -> Forall wf_node t ->
+  exists p out, paint a t = Ok (p, out) /\ track_ops None (paint_ops a t) = Some None.
+Proof. exact paint_balanced. Qed.
+Print Assumptions C20_paint_balanced.
+
+(** Every line of the output is the line the layout of the picture demands:
+    bars exactly under ancestors with later siblings, branch glyph for
+    non-last and corner glyph for last children, none at the top level;
+    continuation rows carry the ancestors' units, a bar iff their node is not
+    last, and no glyph; a blank line closes each top-level group. *)
+Theorem C20_glyphs_encode_position : forall a t,
+  forallb is_group t = true -> Forall wf_node t ->
+  exists p out ls, paint a t = Ok (p, out) /\ out = unlines ls /\
+                   Forall2 line_ok (layout (picture a t)) ls.
+Proof. exact glyphs_encode_position. Qed.
+Print Assumptions C20_glyphs_encode_position.
+
+(** The node lines of that layout are the nodes of the picture — every
+    selected group, benchmark, argument case and thread-count branch — each
+    exactly once, in depth-first order of the given (sorted) tree. *)
+Theorem C20_preorder_once : forall a t,
+  lay_names (layout (picture a t)) = flat_map preorder (picture a t).
+Proof. exact preorder_once. Qed.
+Print Assumptions C20_preorder_once.
+
+(** An ignored entry paints one [(ignored)] line and calls nothing. *)
 Theorem C20_ignored_entry_ops : forall a id name args threads out is_last,
   run_bench_entry a id name true args threads out is_last = [IgnoreLeaf name is_last].
 Proof. exact ignored_entry_ops. Qed.
